@@ -59,7 +59,7 @@ def C(name, params=(), kind='plain', bases=(), abstract=False, extra=False,
       pyname=None, yattrs=(), noargs_exc=False, kwonly=(),
       members=(), rejects=(), recog=None, sav=None, swe=None,
       init_raises=False, attrs_private=False, ydefaults=(), raisesif=(),
-      strmixin=False):
+      strmixin=False, extraann='odict'):
     return {
         'name': name, 'pyname': pyname or name, 'kind': kind,
         'bases': list(bases),
@@ -75,6 +75,8 @@ def C(name, params=(), kind='plain', bases=(), abstract=False, extra=False,
         # [param name, abstract value]: __init__ refuses exactly that value
         'raisesif': list(raisesif),
         'strmixin': strmixin,
+        # annotation of the _yatiml_extra parameter: 'odict' | 'none'
+        'extraann': extraann,
         # class-level _yatiml_defaults: [[param, abstract value], ...]
         'hasydef': bool(ydefaults), 'ydefaults': [list(x) for x in ydefaults],
         'yattrs': list(yattrs), 'noargsexc': noargs_exc,
@@ -525,6 +527,13 @@ def models():
                 keys=['abc', 'emps', 'role', 'hours', 'name'],
                 scalars=[S_42, S_ABC, S_7], strs=['abc'], family='dumpinv',
                 qn=1, tn=1, qo=8, to=8))
+    # a class whose _yatiml_extra parameter carries no annotation, and the
+    # reserved name used as a key in the document
+    ey = C('Ey', [P('a', INT)], extra=True, extraann='none')
+    iz = C('Iz', [P('v', INT)])
+    ms.append(M('extra2', [ey, iz], [K('Ey')], keys=['a', '_yatiml_extra', 'v'],
+                scalars=[S_42], mtags=('map', '!Iz'), qn=7, tn=7, rootk='m',
+                nodup=True, qtags=(), rtypes=[]))
     # ---- long and unusual strings as attributes of an object -------------------
     ls = C('Ls', [P('d', STR), P('e', STR, ['str', 'abc'])])
     ms.append(M('longstr', [ls], [K('Ls'), L(STR), D(STR)], keys=['d', 'e'],
